@@ -47,6 +47,11 @@ m = {
  },
  "engines": [
   {"name":"hist","path":"engines/hist.py","serves_properties":["C02","C04"],"kind_free_text":"seeded stateful history machine over live ContractionTree objects; SimPool + virtual clock inside forest/tempering ops; deepcopy-snapshot oracles; ddmin minimiser"},
+  {"name":"hyper","path":"engines/hyper.py","serves_properties":["C08"],"kind_free_text":"real HyperOptimizer on a simulated pool (seeded completion order, thread/process fidelity) with a virtual clock, injected trial faults and clock jumps; invariants + serial fault-free reference"},
+  {"name":"store","path":"engines/store.py","serves_properties":["C14","C15"],"kind_free_text":"reusable optimizers over a simulated file system (interposed open/os mutators in front of a scratch directory): clean restarts for C14, exhaustive crash-point enumeration with byte-exact torn writes for C15"},
+  {"name":"cache","path":"engines/cache.py","serves_properties":["C13"],"kind_free_text":"call histories over the process-global interface caches with eviction faults; lock-step differential against the uncached call"},
+  {"name":"threads","path":"engines/threads.py","serves_properties":["C16"],"kind_free_text":"baton-passing scheduler over real caller threads with sys.settrace pre-emption points and simulator-assigned thread idents"},
+  {"name":"detenv","path":"engines/detenv.py","serves_properties":["C17"],"kind_free_text":"environment-perturbation simulation: same seeded cases in fresh interpreters with different PYTHONHASHSEED, global RNG state, warm-up history, case order and pool completion order"},
  ],
  "checks": checks,
  "not_applicable": na,
